@@ -375,6 +375,42 @@ fn instruction_groups(tier: Tier) -> Vec<(String, Vec<Instruction>)> {
         }
     }
     g.push(("qm31_blake(decode only)".into(), v));
+    if tier == Tier::Thorough {
+        // the full 16-bit range of every offset field, one field at a time (the others fixed)
+        use cairo_lang_casm::operand::{BinOpOperand, Operation};
+        let fixed = CellRef { register: Register::FP, offset: 1 };
+        let fixed0 = CellRef { register: Register::AP, offset: 0 };
+        for register in [Register::AP, Register::FP] {
+            let rn = if register == Register::AP { "ap" } else { "fp" };
+            let mut fam: Vec<(String, Vec<Instruction>)> = vec![
+                (format!("sweep/assert_eq.dst[{rn}]"), vec![]),
+                (format!("sweep/assert_eq.deref[{rn}]"), vec![]),
+                (format!("sweep/assert_eq.doublederef.base[{rn}]"), vec![]),
+                (format!("sweep/assert_eq.doublederef.inner[{rn}]"), vec![]),
+                (format!("sweep/assert_eq.add.a[{rn}]"), vec![]),
+                (format!("sweep/assert_eq.mul.b[{rn}]"), vec![]),
+                (format!("sweep/jnz.cond[{rn}]"), vec![]),
+                (format!("sweep/jump_rel.deref[{rn}]"), vec![]),
+                (format!("sweep/call_abs.deref[{rn}]"), vec![]),
+                (format!("sweep/add_ap.deref[{rn}]"), vec![]),
+            ];
+            for x in i16::MIN..=i16::MAX {
+                let c = CellRef { register, offset: x };
+                let inc = x & 1 == 0;
+                fam[0].1.push(Instruction::new(InstructionBody::AssertEq(AssertEqInstruction { a: c, b: ResOperand::Deref(fixed) }), inc));
+                fam[1].1.push(Instruction::new(InstructionBody::AssertEq(AssertEqInstruction { a: fixed0, b: ResOperand::Deref(c) }), inc));
+                fam[2].1.push(Instruction::new(InstructionBody::AssertEq(AssertEqInstruction { a: fixed0, b: ResOperand::DoubleDeref(c, 1) }), inc));
+                fam[3].1.push(Instruction::new(InstructionBody::AssertEq(AssertEqInstruction { a: fixed0, b: ResOperand::DoubleDeref(fixed, x) }), inc));
+                fam[4].1.push(Instruction::new(InstructionBody::AssertEq(AssertEqInstruction { a: fixed0, b: ResOperand::BinOp(BinOpOperand { op: Operation::Add, a: c, b: DerefOrImmediate::Deref(fixed) }) }), inc));
+                fam[5].1.push(Instruction::new(InstructionBody::AssertEq(AssertEqInstruction { a: fixed0, b: ResOperand::BinOp(BinOpOperand { op: Operation::Mul, a: fixed, b: DerefOrImmediate::Deref(c) }) }), inc));
+                fam[6].1.push(Instruction::new(InstructionBody::Jnz(JnzInstruction { jump_offset: DerefOrImmediate::Immediate(BigInt::from(5).into()), condition: c }), inc));
+                fam[7].1.push(Instruction::new(InstructionBody::Jump(JumpInstruction { target: DerefOrImmediate::Deref(c), relative: true }), inc));
+                fam[8].1.push(Instruction::new(InstructionBody::Call(CallInstruction { target: DerefOrImmediate::Deref(c), relative: false }), false));
+                fam[9].1.push(Instruction::new(InstructionBody::AddAp(AddApInstruction { operand: ResOperand::Deref(c) }), false));
+            }
+            g.extend(fam);
+        }
+    }
     g
 }
 
@@ -580,7 +616,7 @@ fn run(ctx: &mut Ctx) {
 pub static C16: CheckDef = CheckDef {
     id: "C16",
     level: "exploration",
-    rule: "Complete enumeration of instruction shapes accepted by Instruction::assemble: AssertEq x dst cell x ResOperand {Deref, DoubleDeref, Immediate, BinOp{Add,Mul} x {Deref,Immediate}} x inc_ap; AddAp x ResOperand; Jump/Call x {rel,abs} x {Deref,Immediate} (x inc_ap for jumps); Jnz x condition cell x {Deref,Immediate} x inc_ap; Ret; QM31AssertEq and Blake2sCompress (size/decoding only). Registers {ap,fp} x offsets {-32768,-2,-1,0,1,32767} (thorough adds -32767,2,32766) in every offset field; immediates {0,1,-1,2,2^15,2^64,2^128,P-1} (thorough adds 2^16,2^63,(P-1)/2,-2^127,7,2^250). For each shape x machine state {ap=fp, ap=fp+5, dst unknown (deduction), dst known-different (must fail)}: cairo-vm decodes the assembled word, decoded size == encode().len() == op_size(), and ONE real VirtualMachine::step_instruction from the prepared state yields exactly the pc/ap/fp and memory writes (or the failure) of a reference step written from the instruction's meaning. distinct_nontrivial = distinct instruction texts.",
+    rule: "Complete enumeration of instruction shapes accepted by Instruction::assemble: AssertEq x dst cell x ResOperand {Deref, DoubleDeref, Immediate, BinOp{Add,Mul} x {Deref,Immediate}} x inc_ap; AddAp x ResOperand; Jump/Call x {rel,abs} x {Deref,Immediate} (x inc_ap for jumps); Jnz x condition cell x {Deref,Immediate} x inc_ap; Ret; QM31AssertEq and Blake2sCompress (size/decoding only). Registers {ap,fp} x offsets {-32768,-2,-1,0,1,32767} (thorough adds -32767,2,32766) in every offset field; thorough additionally sweeps the FULL 16-bit range (all 65 536 values) of each offset field in turn - destination, dereferenced operand, double-deref base and inner offset, either BinOp operand, jnz condition, jump/call target, add_ap operand - for both registers (1.3 M further instructions); immediates {0,1,-1,2,2^15,2^64,2^128,P-1} (thorough adds 2^16,2^63,(P-1)/2,-2^127,7,2^250). For each shape x machine state {ap=fp, ap=fp+5, dst unknown (deduction), dst known-different (must fail)}: cairo-vm decodes the assembled word, decoded size == encode().len() == op_size(), and ONE real VirtualMachine::step_instruction from the prepared state yields exactly the pc/ap/fp and memory writes (or the failure) of a reference step written from the instruction's meaning. distinct_nontrivial = distinct instruction texts.",
     assumptions: &["cairo-vm 3.2.0 is the execution semantics of bytecode (the assembler is checked against it)", "operand cells hold felts except where the form needs a pointer (DoubleDeref base, abs jump/call target, ret frame); aliasing states with conflicting needs are skipped and counted"],
     run,
     stack_mb: 8,
